@@ -127,6 +127,10 @@ func c08Check(ti typeInfo, d dpt.Datapoint, p []byte) (accepted bool, f *common.
 }
 
 func c08Run(p c08Plan) *common.Fail {
+	if p.Type == "cold-start" {
+		f, _ := coldRenderStarts(80)
+		return f
+	}
 	ti, ok := typeByName(p.Type)
 	if !ok {
 		return common.Failf("type-missing", "type %q is not registered", p.Type)
@@ -151,6 +155,20 @@ func TestC08(t *testing.T) {
 		common.ReplayOnly(t, rec, c08Run)
 		completed = true
 		return
+	}
+	// first of all: fresh processes in which the first decode + rendering of every type is a concurrent one
+	if rec.Env.Shard == 0 {
+		n := 40
+		if rec.Env.Thorough() {
+			n = 400
+		}
+		f, ran := coldRenderStarts(n)
+		rec.Eval(int64(ran) * 16 * int64(len(allTypes())))
+		rec.NonTrivialEnum(int64(ran))
+		rec.ClassN("cold-start-render-processes", int64(ran))
+		if f != nil {
+			common.Report(t, rec, f, c08Plan{Type: "cold-start", Hex: ""})
+		}
 	}
 	types := allTypes()
 	thorough := rec.Env.Thorough()
